@@ -226,11 +226,63 @@ func WithCapture(ctx context.Context, dst **Exchange) context.Context {
 	return context.WithValue(ctx, captureKey{}, dst)
 }
 
+// validHeaderName / validHeaderValue follow golang.org/x/net/http/httpguts: a name is an RFC 7230
+// token, a value has no control bytes other than horizontal tab.
+func validHeaderName(s string) bool {
+	if s == "" {
+		return false
+	}
+	for i := 0; i < len(s); i++ {
+		c := s[i]
+		switch {
+		case c >= 'a' && c <= 'z', c >= 'A' && c <= 'Z', c >= '0' && c <= '9':
+		case strings.IndexByte("!#$%&'*+-.^_`|~", c) >= 0:
+		default:
+			return false
+		}
+	}
+	return true
+}
+
+func validHeaderValue(s string) bool {
+	for i := 0; i < len(s); i++ {
+		c := s[i]
+		if (c < 0x20 && c != '\t') || c == 0x7f {
+			return false
+		}
+	}
+	return true
+}
+
 // RoundTrip implements http.RoundTripper.
 //
 //go:norace
 func (f *Fabric) RoundTrip(req *http.Request) (*http.Response, error) {
 	vsched.YieldObjs("net.send", []uintptr{uintptr(unsafe.Pointer(f)), vsched.CtxID(req.Context())}) // exchanges are numbered in start order; the request context is polled
+	// net/http's Transport refuses a request whose header names or values are not valid field
+	// content before anything is sent (and closes the request body). The harness's own reference peers
+	// (recognisable by WithCapture) stand for arbitrary programs writing to a socket and are not vetted.
+	_, rawPeer := req.Context().Value(captureKey{}).(**Exchange)
+	for k, vv := range req.Header {
+		if rawPeer {
+			break
+		}
+		bad := ""
+		if !validHeaderName(k) {
+			bad = fmt.Sprintf("net/http: invalid header field name %q", k)
+		}
+		for _, v := range vv {
+			if bad == "" && !validHeaderValue(v) {
+				bad = fmt.Sprintf("net/http: invalid header field value for %q", k)
+			}
+		}
+		if bad != "" {
+			if req.Body != nil {
+				req.Body.Close()
+			}
+			return nil, errors.New(bad)
+		}
+	}
 	var body []byte
 	if req.Body != nil {
 		b, err := io.ReadAll(req.Body)
